@@ -61,6 +61,8 @@ const OPS: &[(&str, u8)] = &[
     ("{x, ..x} = {\"x\": K, \"z\": K}", 0),
     ("[x, ..x] = [K, K]", 0),
     ("[x, [x]] = [K, [K]]", 0),
+    ("fn rN() {\nprint(x + 0)\n}", 6),
+    ("rR()", 7),
 ];
 const CLOSE: u16 = 11;
 
@@ -72,6 +74,8 @@ pub struct St {
     open: Vec<(String, usize)>,
     next_k: u32,
     next_n: u32,
+    /// number of the most recently defined reader function
+    reader: Option<u32>,
 }
 
 struct Alpha;
@@ -79,7 +83,7 @@ struct Alpha;
 impl Alphabet for Alpha {
     type St = St;
     fn init(&self) -> St {
-        St { ops: vec![], text: String::new(), open: vec![], next_k: 1, next_n: 1 }
+        St { ops: vec![], text: String::new(), open: vec![], next_k: 1, next_n: 1, reader: None }
     }
     fn enabled(&self, st: &St) -> Vec<u16> {
         let last = st.ops.last().copied();
@@ -88,6 +92,9 @@ impl Alphabet for Alpha {
                 let (t, kind) = OPS[*op as usize];
                 if kind == 9 {
                     return matches!(st.open.last(), Some((_, n)) if *n > 0);
+                }
+                if kind == 7 {
+                    return st.reader.is_some() && last != Some(*op);
                 }
                 if kind != 0 && kind != 5 && st.open.len() >= 3 {
                     return false;
@@ -120,6 +127,7 @@ impl Alphabet for Alpha {
                     s.next_k += 1;
                 }
                 'N' => line.push_str(&format!("{}", s.next_n)),
+                'R' => line.push_str(&format!("{}", s.reader.unwrap_or(0))),
                 c => line.push(c),
             }
         }
@@ -140,6 +148,10 @@ impl Alphabet for Alpha {
                 s.next_n += 1;
             }
             5 => s.next_n += 1,
+            6 => {
+                s.reader = Some(s.next_n);
+                s.next_n += 1;
+            }
             _ => {}
         }
         s
